@@ -132,15 +132,15 @@ def r152(ctx):
                     ready_edges |= {(b2, tg) for v, tg in t.arms if names[v] == "Ready"}
         somes = [r for r in cv.return_sites() if r["kind"] == "some"]
         for r in somes:
-            via_ready = cv.must_pass(r["block"], ready_edges) if ready_edges else False
+            via_ready = cv.must_pass(R.site_block(r), ready_edges) if ready_edges else False
             if via_ready:
-                ctx.ob("R15.2", cv.must_pass(r["block"], te) and bool(te), f"{pb.name}/ready-needs-is_done",
+                ctx.ob("R15.2", cv.must_pass(R.site_block(r), te) and bool(te), f"{pb.name}/ready-needs-is_done",
                        "prune_channels selects a ready channel for removal without monitor.is_done() being true",
                        where=f"{cb.file}:{r['line']}", sample="Some(key) in the Ready arm dominated by is_done() == true")
         # no Some in the Ready arm that bypasses: any Some reachable from the Ready edge must pass te
         for (u, v) in ready_edges:
             live = cv.reach(v, cut_edges=te)
-            bad = [r for r in somes if r["block"] in live]
+            bad = [r for r in somes if R.site_block(r) in live]
             ctx.ob("R15.2", not bad, f"{pb.name}/ready-arm", "the Ready arm can return Some(key) without is_done()",
                    where=f"{cb.file}:{cb.line}", sample="Ready arm: Some only after is_done")
         for bi, c in done:
@@ -174,7 +174,7 @@ def r152(ctx):
            f"{ib.name}/events", f"is_done considers {sorted(heights)}", where=f"{ib.file}:{ib.line}", sample=sorted(heights))
     for r in iv.return_sites():
         if r["kind"] == "true" or (r["kind"] == "value"):
-            ctx.ob("R15.2", iv.must_pass(r["block"], te) and bool(te), f"{ib.name}/true-needs-deep-enough",
+            ctx.ob("R15.2", iv.must_pass(R.site_block(r), te) and bool(te), f"{ib.name}/true-needs-deep-enough",
                    f"State::is_done can return {r['how']} without deep_enough_and_saw_node_forget being true",
                    where=f"{ib.file}:{r['line']}", sample="true dominated by deep_enough_and_saw_node_forget(..) == true")
     # deep_enough_and_saw_node_forget
